@@ -116,6 +116,18 @@ pub enum Carry {
     Both,
 }
 
+#[derive(Serialize, Deserialize, Debug, Clone, Copy, PartialEq, Eq)]
+pub enum RunHow {
+    /// `frame.call(..)`
+    Call,
+    /// `let _g = frame.enter(); ..`
+    EnterGuard,
+    /// `frame.in_future(async { .. })`, awaited (block_on in sync code)
+    InFuture,
+    /// moved to a fresh thread and `frame.call(..)`ed there
+    OtherThread,
+}
+
 #[derive(Serialize, Deserialize, Debug, Clone)]
 pub enum Item {
     Span(Node),
@@ -130,6 +142,13 @@ pub enum Item {
     /// `catch_unwind` around `items` (in async code: around every poll of them); the thread is used on
     /// afterwards and `Traceparent::current()` must be what it was before
     Catch { items: Vec<Item> },
+    /// make a NON-span frame here and keep it for later: `Frame::current(rt.ctxt())`, or with `props`
+    /// `Frame::push(rt.ctxt(), props!{ job })` (a plain property) — the context a dispatcher captures when a job
+    /// is submitted. At top level before any trace the frame carries no traceparent.
+    CaptureFrame { props: bool },
+    /// take the nearest frame captured lexically before this point that nobody has used yet (none: just run
+    /// the items) and run `items` inside it — wherever this is: inside spans, header frames, other threads
+    RunFrame { how: RunHow, items: Vec<Item> },
     /// push an incoming header around `items`
     Push { header: Header, via: PushVia, items: Vec<Item> },
     /// "next service": format the current traceparent (if valid), parse it on a fresh thread, push it there, run `items`
@@ -194,6 +213,9 @@ pub enum PItem {
     Yield,
     Panic,
     Catch { items: Vec<PItem>, post: usize },
+    CaptureFrame { slot: usize, props: bool },
+    /// `frame`: the capture slot this run takes (resolved lexically by the numberer, each capture is used once)
+    RunFrame { frame: Option<usize>, how: RunHow, in_async: bool, items: Vec<PItem>, pre: usize, end: Option<usize>, post: usize },
     /// `in_async`: entered with `Frame::in_future` (async code) instead of `Frame::call`
     Push { id: usize, header: Header, via: PushVia, in_async: bool, items: Vec<PItem>, pre: usize, post: usize },
     Service { id: usize, items: Vec<PItem>, pre: usize, end: usize, post: usize },
@@ -209,6 +231,7 @@ pub struct Prog {
     pub checks: usize,
     pub pushes: usize,
     pub hops: usize,
+    pub frames: usize,
     pub final_check: usize,
 }
 
@@ -232,6 +255,11 @@ struct Numberer {
     checks: usize,
     pushes: usize,
     hops: usize,
+    frames: usize,
+    /// capture slots lexically visible from the point being numbered, innermost last …
+    visible: Vec<usize>,
+    /// … and those some `RunFrame` has already claimed
+    used: Vec<bool>,
 }
 
 impl Numberer {
@@ -241,12 +269,39 @@ impl Numberer {
     }
 
     fn items(&mut self, items: &[Item], in_async: bool) -> Vec<PItem> {
-        items.iter().map(|it| self.item(it, in_async)).collect()
+        // captures made inside this list stop being visible when it ends (a later point cannot be sure they ran)
+        let visible = self.visible.len();
+        let out = items.iter().map(|it| self.item(it, in_async)).collect();
+        self.visible.truncate(visible);
+        out
     }
 
     fn item(&mut self, it: &Item, in_async: bool) -> PItem {
         match it {
             Item::Panic => PItem::Panic,
+            Item::CaptureFrame { props } => {
+                let slot = self.frames;
+                self.frames += 1;
+                self.used.push(false);
+                self.visible.push(slot);
+                PItem::CaptureFrame { slot, props: *props }
+            }
+            Item::RunFrame { how, items } => {
+                let frame = self.visible.iter().rev().copied().find(|s| !self.used[*s]);
+                if let Some(f) = frame {
+                    self.used[f] = true;
+                }
+                let pre = self.check();
+                let body_async = match how {
+                    RunHow::InFuture => true,
+                    RunHow::OtherThread => false,
+                    _ => false,
+                };
+                let items = self.items(items, if frame.is_some() { body_async } else { in_async });
+                let end = if frame.is_some() && *how == RunHow::OtherThread { Some(self.check()) } else { None };
+                let post = self.check();
+                PItem::RunFrame { frame, how: *how, in_async, items, pre, end, post }
+            }
             Item::Catch { items } => {
                 let items = self.items(items, in_async);
                 let post = self.check();
@@ -305,7 +360,7 @@ pub fn number(case: &Case) -> Prog {
     let mut n = Numberer::default();
     let items = n.items(&case.items, false);
     let final_check = n.check();
-    Prog { items, nodes: n.nodes, events: n.events, checks: n.checks, pushes: n.pushes, hops: n.hops, final_check }
+    Prog { items, nodes: n.nodes, events: n.events, checks: n.checks, pushes: n.pushes, hops: n.hops, frames: n.frames, final_check }
 }
 
 /// Does running these items end in an unwind that leaves the list (a `Panic` no `Catch` inside it stops)?
@@ -316,6 +371,7 @@ pub fn unwinds(items: &[PItem]) -> bool {
         PItem::Panic => true,
         PItem::Span(n) => !n.form.is_handoff() && unwinds(&n.items),
         PItem::Push { items, .. } => unwinds(items),
+        PItem::RunFrame { frame, how, items, .. } => !(frame.is_some() && *how == RunHow::OtherThread) && unwinds(items),
         _ => false,
     })
 }
